@@ -21,7 +21,7 @@ for d in "$V"/seeded/*/; do
   mkdir -p "$T/repo" "$T/verif"
   rsync -a --exclude .git "$REPO"/ "$T/repo"/
   cp "$V/known_findings.json" "$V/properties.jsonl" "$T/verif"/
-  cp -r "$V/contracts" "$T/verif/contracts"
+  cp -r "$V/contracts" "$T/verif/contracts"; cp -r "$V/bounded" "$T/verif/bounded"
   if ! (cd "$T/repo" && patch -s -p1 < "$d/patch.diff"); then
     # the tree differs from the one the seed was made for (e.g. it was edited before this run): not a verdict
     echo "SELFTEST property=$PROP seed=$(basename "$d") result=skipped-patch-does-not-apply"
